@@ -49,7 +49,8 @@ def _describe(s):
         return "PulseSynchronizer, >= %d quiet input cycles after a pulse, clock drift <= %d" % (s["quiet"], s["r"])
     if s["kind"] == "axil":
         return fam.describe_axil(s)
-    txt = "stream.%s(depth=%d%s%s)" % ("AsyncFIFO" if s["kind"] == "asyncfifo" else "ClockDomainCrossing", s.get("depth", 4),
+    txt = "%s(depth=%d%s%s)" % ("uart._get_uart_fifo" if s.get("via") == "uart" else
+                                  "stream.AsyncFIFO" if s["kind"] == "asyncfifo" else "stream.ClockDomainCrossing", s.get("depth", 4),
                                        ", buffered" if s.get("buffered") else "",
                                        ", with_common_rst" if s.get("common_rst") else "")
     if s.get("swapnames"):
@@ -642,7 +643,9 @@ def tmode_specs(tier):
             dict(kind="pulse"),
             # tokens whose upper bits travel as param field and first/last flags through the FIFO wrapper
             dict(kind="cdc", depth=8, dw=14, pw=4, fl=1), dict(kind="asyncfifo", depth=8, dw=9, pw=3, fl=1, buffered=True),
-            dict(kind="cdc", depth=4, dw=6, pw=2, fl=1, buffered=True), dict(kind="asyncfifo", depth=4, dw=5, pw=2)]
+            dict(kind="cdc", depth=4, dw=6, pw=2, fl=1, buffered=True), dict(kind="asyncfifo", depth=4, dw=5, pw=2),
+            # the UART's own crossing FIFO (uart._get_uart_fifo with different sink / source domains)
+            dict(kind="asyncfifo", via="uart", depth=16, dw=8), dict(kind="asyncfifo", via="uart", depth=4, dw=8)]
     L = []
     for di, d in enumerate(duts):
         for ci, clk in enumerate(CLOCKS):
